@@ -318,7 +318,7 @@ def r18_5(ctx):
     c12.r12_1(ctx)
     c12.r12_2(ctx)
     # a timed-out child must be killed, otherwise its EXIT trap re-creates the state directory after clean-up
-    c14.r14_8(ctx)
+    c14.r14_8(ctx, accept_terminate=True)
 
 
 def r18_7(ctx):
